@@ -607,7 +607,10 @@ def h_retry_loop(ctx, group, failures):
         return obs
     # sender side: has sent the message before
     st_s, bottom_s, app_s, mgr_s, sl, _ = _stack(ctx, sessions=True, senderkey=True)
-    sl.send(N("message", {"to": chat or me_r, "type": "text", "id": mid}, [N("proto", {}, None, _payload("text"))]))
+    # the original is a text or a media message (the media kind travels as an attribute of the payload element and of every envelope)
+    mediatype = ctx.choice("original_is", ["text", "image", "location"])
+    pattrs = {} if mediatype == "text" else {"mediatype": mediatype}
+    sl.send(N("message", {"to": chat or me_r, "type": "text" if mediatype == "text" else "media", "id": mid}, [N("proto", pattrs, None, _payload("text"))]))
     first = [n for n in bottom_s.down if n.tag == "message"]
     obs.append(("the message leaves the sender once", len(first) == 1))
     req = rr[-1]
@@ -633,6 +636,8 @@ def h_retry_loop(ctx, group, failures):
         a = again[0]
         obs.append(("... with the original id", SC.val_eq(hooks.dict_get(a.attributes, "id"), mid)))
         obs.append(("... as an envelope without plaintext", a.getChild("proto") is None and len(a.getAllChildren("enc")) >= 1))
+        mts = [hooks.dict_get(e.attributes, "mediatype") for e in a.getAllChildren("enc")]
+        obs.append(("... whose envelopes name the original's media kind (%s)" % mts, all((m is None) if mediatype == "text" else (m == mediatype) for m in mts)))
         if group:
             obs.append(("... for the requesting member only (the other members already have it: a group-wide resend would show it twice)",
                         SC.val_eq(hooks.dict_get(a.attributes, "participant"), me_r)))
